@@ -1,5 +1,25 @@
 """C44 — Reproviding announces every allowed key and terminates (spec/Reprovider)."""
 import json
+import threading
+import time
+
+
+def parallel(*thunks):
+    """run independent phases (TLC model checks, TLC generators, go build) concurrently; re-raise the first exception"""
+    out, errs = [None] * len(thunks), []
+
+    def wrap(i, f):
+        try:
+            time.sleep(0.3 * i)         # vlib names TLC's metadir by the millisecond
+            out[i] = f()
+        except BaseException as e:      # noqa
+            errs.append(e)
+    ths = [threading.Thread(target=wrap, args=(i, f)) for i, f in enumerate(thunks)]
+    [t.start() for t in ths]
+    [t.join() for t in ths]
+    if errs:
+        raise errs[0]
+    return out
 
 META = dict(
     spec="Reprovider",
@@ -8,7 +28,11 @@ META = dict(
                 "config with the as-built batch computation must FAIL termination (non-vacuity). Every enumerated case is "
                 "replayed on the real provider.New under a watchdog comparing router batches and throughput callbacks; the "
                 "prioritized provider model's expected emission sequence is replayed on NewPrioritizedProvider; random passes "
-                "over <= 200 keys are recorded and validated as behaviours of the spec."),
+                "over <= 200 keys are recorded and validated as behaviours of the spec. Every case is a SEQUENCE of passes: "
+                "2 consecutive Reprovide calls on one System (same key provider / SetKeyProvider(other) / SetKeyProvider(nil)), "
+                "3 consecutive invocations of the one KeyChanFunc returned by NewPrioritizedProvider / NewConcatProvider / "
+                "NewBufferedProvider (streams failing in some passes only); the spec states that every pass emits/announces the "
+                "full set again."),
     level_note="Trusted: harness fake routers/key providers, MapDatastore; rejected keys realised as murmur3 / truncated sha2-256 CIDs. A configured limit of 0 is read as max(1, limit) (no non-empty batch can respect 0).",
     technique="TLA+ loop model with liveness; TLC-enumerated cases replayed into provider.New under watchdog; recorded passes validated by TraceReprovider",
 )
@@ -19,21 +43,33 @@ def run(ctx):
                         "limit 0 is interpreted as an effective batch size of 1"]
     ctx.cov["rule"] = ("G: every (stream, MaxBatchSize, ThroughputReport threshold, callback-stops, router kind, rejected set) "
                        "case enumerated by TLC with the spec's batches/callbacks; non-trivial = at least 2 batches or a rejected key in the stream. "
-                       "Prio: every tuple of <=3-4 streams incl. failing streams. T: random passes <= 200 keys.")
-    ctx.tlc_mc("Reprovider", "Reprovider.tla", "MCReprovider.cfg" if ctx.quick else "MCReproviderBig.cfg",
-               timeout=900, deadlock=False)
-    ctl = ctx.tlc_mc("Reprovider", "Reprovider.tla", "MCReproviderAsBuilt.cfg", timeout=300, deadlock=False,
-                     expect_violation=True)
-    if not (ctl["violated"] and "Temporal" in ctl["violated"]):
-        ctx.broken("non-vacuity control: as-built batch size 0 should violate Terminates in the model, got %s" % ctl["violated"])
-    ctx.tlc_mc("Reprovider", "PrioProvider.tla", "MCPrioProviderNoEmit.cfg", timeout=600, deadlock=False)
+                       "Each case = 2 passes on one system (plan: same / set / setnil). "
+                       "Prio: every tuple of <=3-4 streams incl. failing streams, kinds prio/bufprio/concat, 3 invocations of the same "
+                       "KeyChanFunc. T: random systems, 1-3 passes each, streams <= 200 keys.")
+    ctx.open_devs()
+    ctx.specdir("Reprovider")
+    W = 4   # the five TLC runs and the go build are independent: run them side by side with few workers each
+    TO = 900 if ctx.quick else 3000
 
-    cases = ctx.tlc_gen("Reprovider", "GenReprovider.tla", "GenReprovider.cfg" if ctx.quick else "GenReproviderBig.cfg",
-                        timeout=900)
-    prio = ctx.tlc_gen("Reprovider", "PrioProvider.tla", "MCPrioProvider.cfg" if ctx.quick else "MCPrioProviderBig.cfg",
-                       timeout=900)
-    binp = ctx.go_build("provider", ["provider/zz_verif_C44_test.go"])
-    nt = lambda c: len(c["batches"]) >= 2 or bool(set(c["stream"]) & set(c["cfg"]["bad"]))
+    def m_ctl():
+        ctl = ctx.tlc_mc("Reprovider", "Reprovider.tla", "MCReproviderAsBuilt.cfg", timeout=600, deadlock=False,
+                         expect_violation=True, workers=W)
+        if not (ctl["violated"] and "Temporal" in ctl["violated"]):
+            ctx.broken("non-vacuity control: as-built batch size 0 should violate Terminates in the model, got %s" % ctl["violated"])
+    _, _, _, cases, prio, binp = parallel(
+        lambda: ctx.tlc_mc("Reprovider", "Reprovider.tla", "MCReprovider.cfg" if ctx.quick else "MCReproviderBig.cfg",
+                           timeout=TO, deadlock=False, workers=W),
+        m_ctl,
+        lambda: ctx.tlc_mc("Reprovider", "PrioProvider.tla", "MCPrioProviderNoEmit.cfg", timeout=TO, deadlock=False, workers=W),
+        lambda: ctx.tlc_gen("Reprovider", "GenReprovider.tla", "GenReprovider.cfg" if ctx.quick else "GenReproviderBig.cfg",
+                            timeout=TO, workers=W),
+        lambda: ctx.tlc_gen("Reprovider", "PrioProvider.tla", "MCPrioProvider.cfg" if ctx.quick else "MCPrioProviderBig.cfg",
+                            timeout=TO, workers=W),
+        lambda: ctx.go_build("provider", ["provider/zz_verif_C44_test.go"]))
+    if any(len(c["passes"]) < 2 for c in cases) or any(len(p["outs"]) < 2 for p in prio):
+        ctx.broken("generator produced single-pass cases: the multi-pass clause would be vacuous")
+        return
+    nt = lambda c: any(len(p["batches"]) >= 2 or bool(set(p["stream"]) & set(c["cfg"]["bad"])) for p in c["passes"])
     if ctx.replay_behaviours(binp, "TestVerifC44", "provider", cases, name="reprovide", nontrivial=nt,
                              timeout=1500) is None:
         return
@@ -49,7 +85,7 @@ def run(ctx):
     ctx.cov["traces_validated_against_impl"] += len(prio)
     ctx.cov["evaluations"] += len(prio)
     for p in prio:
-        if len(p["streams"]) >= 2 and len(p["out"]) >= 2:
+        if len(p["streams"]) >= 2 and len(p["outs"][-1]) >= 2:
             ctx.nontrivial(p)
     ctx.sample(prio[len(prio) // 2])
     ctx.cov["exhaustive"] = True
@@ -60,12 +96,14 @@ def run(ctx):
         return
 
     def corrupt(rs):
-        idx = [i for i, r in enumerate(rs) if r["ev"] == "Batch" and len(r["keys"]) >= 1]
+        # a batch of a LATER pass of some system (after the first Pass event), else any batch
+        first_pass = next((i for i, r in enumerate(rs) if r["ev"] == "Pass"), 0)
+        idx = [i for i, r in enumerate(rs) if r["ev"] == "Batch" and len(r["keys"]) >= 1 and i > first_pass]
         if not idx:
             return None, None
-        i = idx[len(idx) // 2]
+        i = idx[0] if first_pass else idx[len(idx) // 2]
         bad = [dict(r) for r in rs]
         bad[i]["keys"] = bad[i]["keys"][:-1]          # one announced key lost
-        return bad, i
+        return bad[:i + 40], i
     ctx.validate_trace("Reprovider", "TraceReprovider.tla", "TraceReprovider.cfg", recs,
                        count_runs=lambda rs: sum(1 for r in rs if r["ev"] == "Reset"), negative=corrupt)
